@@ -11,6 +11,7 @@ pub mod c05;
 pub mod c06;
 pub mod c07;
 pub mod c08;
+pub mod c09;
 pub mod c10;
 pub mod c11;
 pub mod c12;
@@ -51,6 +52,7 @@ pub fn dispatch(prop: &str, m: &Model, ctx: &mut Ctx, facts: Option<&Value>) -> 
         "C05" => c05::run(m, ctx),
         "C06" => c06::run(m, ctx),
         "C07" => c07::run(m, ctx),
+        "C09" => c09::run(m, ctx),
         "C10" => c10::run(m, ctx),
         "C14" => c14::run(m, ctx),
         "C15" => c15::run(m, ctx),
